@@ -35,6 +35,9 @@ Not decided: that nom delivers the components it saw (run-time parser semantics)
         "data independence: the conversions never inspect component contents except the Member/ComponentsOf tag".into(),
     ];
     ctx.rule("abstract evaluation over opaque list elements (sizes 0..2) and over the order relations of (index, first-extension index)");
+    // "the components after the marker, and only those": COMPONENTS OF inserts root components ahead of the marker, so the
+    // including type's first-extension index moves with them (the analysis lives with C09.splice)
+    borrow(ctx, "C09", "C09.splice", "C05.splice", &mut |sub| crate::rules::c09::run(m, sub));
     let consts = const_resolver(m);
     let ev = Evaluator { consts: &consts, call_hook: &crate::eval::no_hook, inline: None };
 
